@@ -90,7 +90,8 @@ def compare_obs(a: dict, b: dict, res: dict, where, what: str, keys=None, first_
     for k in sorted(common, key=repr):
         if first_may_expose_fewer and k[0] == "anchor" and isinstance(a[k], tuple) and isinstance(b[k], tuple):
             # names local to a loop iteration / call may keep an anchor only for some copies
-            if _sub_multiset(a[k], b[k]):
+            # (a folded local may also keep an anchor in the first build only)
+            if _sub_multiset(a[k], b[k]) or _sub_multiset(b[k], a[k]):
                 continue
         if a[k] != b[k]:
             raise Violation(what, {"at": list(map(str, k)), "first": repr(a[k])[:300],
@@ -155,10 +156,12 @@ def compare_free_running(tw: "Twin", res: dict, where, what: str, group=None, sh
     for g in sorted(set(groups[0]) & set(groups[1])):
         la, lb = groups[0][g], groups[1][g]
         n += 1
-        if len(la) > len(lb) or (len(la) < len(lb) and not first_may_expose_fewer):
+        if len(la) != len(lb) and not first_may_expose_fewer:
             raise Violation(what, {"at": ["anchor", g], "first": f"{len(la)} anchors",
                                    "second": f"{len(lb)} anchors", "where": where})
-        ok = [[same(a, b) for b in lb] for a in la]
+        if len(la) > len(lb):
+            la, lb = lb, la          # local names: either build may keep fewer anchors
+        ok = [[same(a, b) or same(b, a) for b in lb] for a in la]
 
         def assign(i, used):
             if i == len(la):
